@@ -15,12 +15,12 @@
 (* (partial/complete, round trip, additivity, facade = core, lossy, ...)    *)
 (* are evaluated on the recorded history `obs`.                             *)
 (***************************************************************************)
-EXTENDS IntParse, FloatParse, IntWrite, FloatWrite, Json, IOUtils, TLC
+EXTENDS IntParse, FloatParse, IntWrite, FloatWrite, Options, Json, IOUtils, TLC
 
 Rec         == ndJsonDeserialize(IOEnv.TRACE)
 FormatsJson == JsonDeserialize(IOEnv.FORMATS)
 NRec        == Len(Rec)
-FMT         == [i \in 1..Len(FormatsJson) |-> BuildFormat(FormatsJson[i].calls)]
+FMT         == [i \in 1..Len(FormatsJson) |-> PackedView(BuildFormat(FormatsJson[i].calls))]
 FmtOf(ev)   == FMT[ev.fmt + 1]
 
 VARIABLES l, ep, obs, bad
@@ -304,6 +304,47 @@ WriteFloatContract(ev) ==
                    ELSE WriteFloatFiniteWhy(ev, f, o, sc) \o WriteFloatLayoutWhy(ev, f, o, sc))
 
 (***************************************************************************)
+(* builder, catalogue formats, option builders (C18)                       *)
+(***************************************************************************)
+FeatOf(ev) == [format |-> ev.feat.format, pow2 |-> ev.feat.pow2 \/ ev.feat.radix, radix |-> ev.feat.radix]
+
+(* the record a getter view must show: JSON booleans / numbers, same field names *)
+SameView(get, f) == \A k \in DOMAIN f : get[k] = f[k]
+
+BuilderContract(ev) ==
+    LET r == ev.res IN
+    IF r.k # "ok" THEN << >>                            \* a setter that does not exist under these features
+    ELSE LET f  == BuildFormat(ev.calls)
+             fv == FormatValidity(f, FeatOf(ev))
+         IN    V(SameView(r.get, f), "C18", "a getter does not reflect the last value set")
+            \o V(SameView(r.rebuild_get, RebuildView(f)), "C18", "rebuild(build_unchecked()) is not (semantically) the same format")
+            \o (IF fv = "unspecified" THEN << >>
+                ELSE   V(fv = "valid" => (r.strict.k = "ok" /\ r.strict.same), "C18", "build_strict panics for a valid format")
+                    \o V(fv = "invalid" => r.strict.k = "panic", "C18", "build_strict accepts an invalid format"))
+
+FmtInfoContract(ev) ==
+    LET r  == ev.res
+        f  == FmtOf(ev)
+        fv == FormatValidity(f, FeatOf(ev))
+    IN  IF "k" \in DOMAIN r THEN << >>                 \* format not compiled under these features
+        ELSE   V(SameView(r.get, RebuildView(f)), "C18", "NumberFormat getters differ from the builder's values")
+            \o (IF fv = "unspecified" THEN << >>
+                ELSE V(r.valid = (fv = "valid") /\ (r.valid = (r.error = "Success")), "C18",
+                       IF r.valid THEN "format_is_valid accepts an invalid format" ELSE "format_is_valid rejects a valid format"))
+
+OptionsContract(ev) ==
+    LET r == ev.res
+        o == ev.opts
+        v == IF ev.kind = "parse_float" THEN ParseFloatOptionsValidity(o) ELSE WriteFloatOptionsValidity(o)
+    IN  IF r.k # "ok" THEN << >>
+        ELSE   V(r.valid = (r.build = "ok") /\ r.valid = r.strict, "C18", "is_valid, build and build_strict disagree")
+            \o V(r.rebuild_same, "C18", "options do not round-trip through rebuild")
+            \o V(\A k \in DOMAIN r.get : r.get[k] = o[k], "C18", "an options getter does not reflect the value set")
+            \o (IF v = "valid" THEN V(r.valid, "C18", "valid options reported invalid")
+                ELSE IF v = "invalid" THEN V(~r.valid, "C18", "invalid options reported valid")
+                ELSE << >>)
+
+(***************************************************************************)
 (* per-event contract                                                      *)
 (***************************************************************************)
 Contract(ev) ==
@@ -321,6 +362,9 @@ Contract(ev) ==
              WriteFloatContract(ev)
              \o (IF "std" \in DOMAIN ev THEN StdWriteFloatDispute(ev, FmtOf(ev)) ELSE << >>)
       [] ev.op = "write" -> WriteIntContract(ev)
+      [] ev.op = "builder" -> BuilderContract(ev)
+      [] ev.op = "fmtinfo" -> FmtInfoContract(ev)
+      [] ev.op = "options" -> OptionsContract(ev)
       [] OTHER -> << >>
 
 (***************************************************************************)
@@ -363,9 +407,10 @@ PartialAgreesAt(o, i) ==
 (* C16: same call, different build configuration *)
 AdditiveAt(o, i) ==
     LET b == o[i] IN
+    (b.op \in {"parse", "write"}) =>
     \A j \in Others(o, i) :
         LET a == o[j] IN
-        (j < i /\ a.cfg # b.cfg /\ a.api = b.api /\ SameCall(a, b) /\ a.fmt = 0 /\ (a.op = "parse" => a.partial = b.partial)
+        (j < i /\ a.op \in {"parse", "write"} /\ a.cfg # b.cfg /\ a.api = b.api /\ SameCall(a, b) /\ a.fmt = 0 /\ (a.op = "parse" => a.partial = b.partial)
            /\ ~(a.op = "parse" /\ IsFloatTy(a.ty) /\ a.wo /\ a.opts.lossy))      \* lossy results may differ (C19 bounds them)
         => IF a.op = "write" /\ IsFloatTy(a.ty) /\ (a.feat.compact \/ b.feat.compact)
            THEN a.res.k = b.res.k
@@ -377,7 +422,7 @@ FacadeEqualsCoreAt(o, i) ==
     (b.op \in {"parse", "write"} /\ b.api = "facade") =>
     \A j \in Others(o, i) :
         LET a == o[j] IN
-        (a.cfg = b.cfg /\ a.api = "core" /\ SameCall(a, b)
+        (a.op \in {"parse", "write"} /\ a.cfg = b.cfg /\ a.api = "core" /\ SameCall(a, b)
            /\ (a.op = "parse" => a.partial = b.partial)
            /\ (a.op = "write" => a.buflen >= Need(a)))
         => SameRes(a.res, b.res)
@@ -528,6 +573,7 @@ StepOf(kind) ==
     /\ LET ev == Rec[l] IN
        /\ (IF ev.op = "parse" THEN (IF IsFloatTy(ev.ty) THEN "parse_float" ELSE "parse_int")
            ELSE IF ev.op = "write" THEN (IF IsFloatTy(ev.ty) THEN "write_float" ELSE "write_int")
+           ELSE IF ev.op \in {"builder", "fmtinfo", "options"} THEN "config"
            ELSE "other") = kind
        /\ LET newEp  == ev.ep # ep
               closed == IF newEp THEN CloseEpisode(l - 1) ELSE << >>
@@ -541,13 +587,14 @@ ParseFloat == StepOf("parse_float")
 ParseInt   == StepOf("parse_int")
 WriteFloat == StepOf("write_float")
 WriteInt   == StepOf("write_int")
+Config     == StepOf("config")
 Other      == StepOf("other")
 
 Finish == /\ l = NRec + 1
           /\ bad' = bad \o CloseEpisode(NRec)
           /\ l' = l + 1 /\ ep' = -1 /\ obs' = << >>
 
-Next == ParseFloat \/ ParseInt \/ WriteFloat \/ WriteInt \/ Other \/ Finish
+Next == ParseFloat \/ ParseInt \/ WriteFloat \/ WriteInt \/ Config \/ Other \/ Finish
 Spec == Init /\ [][Next]_vars
 
 Report   == (l = NRec + 2) => PrintT(<< "BAD", ToJson(bad) >>)
